@@ -208,6 +208,14 @@ func (r *runner) env(what string) *mismatch {
 	if err := r.db.VerifValidateLevels(); err != nil {
 		return &mismatch{"structure.validate", err.Error()}
 	}
+	if os.Getenv("KVREPLAY_LAYOUT") != "" {
+		ents, _ := r.db.VerifLayout()
+		fmt.Fprintf(os.Stderr, "after %s (discardAtOrBelow=%d):", what, r.db.VerifOracleState().DiscardAtBelow)
+		for _, e := range ents {
+			fmt.Fprintf(os.Stderr, " %s[%q@%d m=%x exp=%d]", e.Source, e.Key, e.Version, e.Meta, e.ExpiresAt)
+		}
+		fmt.Fprintln(os.Stderr)
+	}
 	return nil
 }
 
@@ -311,7 +319,8 @@ func (r *runner) tryWrongKey() *mismatch {
 // rotateMasterKey runs the production `badger rotate` command and switches to the new key.
 func (r *runner) rotateMasterKey() *mismatch {
 	n := len(r.encKey)
-	newKey := []byte(fmt.Sprintf("R%02d%s", r.stats["enc.rotations"]%100, strings.Repeat("r", 40)))[:n]
+	r.nrot++ // never reset: the master key of the previous case stays the current one
+	newKey := []byte(fmt.Sprintf("R%06d%s", r.nrot%1000000, strings.Repeat("r", 40)))[:n]
 	oldP := filepath.Join(r.dir, "..", fmt.Sprintf("old-%d.key", os.Getpid()))
 	newP := filepath.Join(r.dir, "..", fmt.Sprintf("new-%d.key", os.Getpid()))
 	os.WriteFile(oldP, r.encKey, 0600)
